@@ -158,8 +158,11 @@ func TestVerif_C35_CrossProduct(t *testing.T) {
 				ex = []*c35Set{exA, exB, &exBoth}[rapid.IntRange(0, 2).Draw(t, "side")]
 			}
 			typ := c35OtherTypes[rapid.IntRange(0, len(c35OtherTypes)-1).Draw(t, "txtype")]
-			if i == ib && (!holding || typ == protocol.PaymentTx || typ == protocol.KeyRegistrationTx) {
-				typ = protocol.ApplicationCallTx // must be able to name an asset / app
+			if i == ib { // must be able to name an asset / app
+				typ = protocol.ApplicationCallTx
+				if holding {
+					typ = []protocol.TxType{protocol.ApplicationCallTx, protocol.ApplicationCallTx, protocol.AssetTransferTx, protocol.AssetConfigTx, protocol.AssetFreezeTx}[rapid.IntRange(0, 4).Draw(t, "other-txtype")]
+				}
 			}
 			if i == g.Target {
 				typ = protocol.ApplicationCallTx
